@@ -168,7 +168,7 @@ def main_calls(facts):
 # --------------------------------------------------------------------------- C15
 
 
-@rule("R15.1", 5, "every path from a successful translate_* to the back edge / return / exit passes through Translator::flush; failures exit 1", ["C15"])
+@rule("R15.1", 5, "every path from a successful translate_* to the back edge / return / exit passes through Translator::flush; failures exit 1", ["C15", "C13", "C16"])
 def r15_1(ctx):
     m, d = main_calls(ctx.facts)
     ctx.need(d["translate"], "main has no xt::Translator::translate_* call")
